@@ -96,6 +96,8 @@ structure Sto where
   failPersistent : Bool := false
   failed : Bool := false
   log : List Frame := []      -- frames stored in the current run (ghost, = what the mock records)
+  base : Nat := 0             -- ghost: bytes committed to `sink.in` when this run of the storage was started
+  clean : Bool := true        -- ghost: the sink's reader had consumed everything at that moment
   appendsAfterFailure : Nat := 0   -- ghost: appends that reached the driver after a failed one
 deriving Repr, Inhabited
 
